@@ -77,7 +77,9 @@ func sortedKeys(m map[string]string) []string {
 	return ks
 }
 
-func col(v int) openrgb.Color { return openrgb.Color{Red: byte(v >> 16), Green: byte(v >> 8), Blue: byte(v)} }
+func col(v int) openrgb.Color {
+	return openrgb.Color{Red: byte(v >> 16), Green: byte(v >> 8), Blue: byte(v)}
+}
 
 // ---- layouts: which LEDs exist, in which order
 
@@ -99,12 +101,13 @@ func layouts(tier string) map[string][]string {
 		rev[i], rev[j] = rev[j], rev[i]
 	}
 	ls := map[string][]string{
-		"actions-then-notes": append(names(all...), "Key: W", "Key: E"),
-		"reversed":           names(rev...),
-		"only-note-keys":     append([]string{"Key: W"}, names(note...)...), // no action key is lit; LED 0 is an unmapped key
-		"mapped-key-at-led0": names(append([]string{"KEY_X"}, note[:4]...)...), // no action LEDs, LED 0 = a key that goes out of range
-		"unknown-names":      append(append([]string{"Logo", "Key: W"}, names(all...)...), "Underglow 1", "Key: E"),
+		"actions-then-notes":   append(names(all...), "Key: W", "Key: E"),
+		"reversed":             names(rev...),
+		"only-note-keys":       append([]string{"Key: W"}, names(note...)...),    // no action key is lit; LED 0 is an unmapped key
+		"mapped-key-at-led0":   names(append([]string{"KEY_X"}, note[:4]...)...), // no action LEDs, LED 0 = a key that goes out of range
+		"unknown-names":        append(append([]string{"Logo", "Key: W"}, names(all...)...), "Underglow 1", "Key: E"),
 		"some-actions-missing": names("KEY_Z", "KEY_F2", "KEY_F6", "KEY_A", "KEY_S", "KEY_X", "KEY_ESC"),
+		"single-mapping":       names(all...),
 	}
 	if tier == "thorough" {
 		// every rotation of the full layout (each key takes each LED index once) and every layout with exactly one LED missing
@@ -151,21 +154,21 @@ var syn = &input.InputEvent{Source: hnd, Event: evdev.InputEvent{Type: evdev.EV_
 
 type ref struct {
 	oct, sem, ch, mp int
-	held             map[string]int     // key -> sounding pitch (-1: pressed but silent)
-	ext              map[[2]int]bool    // (channel, pitch) sounding on MIDI input
+	held             map[string]int  // key -> sounding pitch (-1: pressed but silent)
+	ext              map[[2]int]bool // (channel, pitch) sounding on MIDI input
 }
 
 type walker struct {
-	res    *vutil.Result
-	layout string
-	srv    *server
-	in     chan *input.InputEvent
-	mi     chan midi.Event
-	r      ref
-	hist   []string
+	res                   *vutil.Result
+	layout                string
+	srv                   *server
+	in                    chan *input.InputEvent
+	mi                    chan midi.Event
+	r                     ref
+	hist                  []string
 	octF, semF, mapF, chF map[int]string // value -> rendered colours of the indicator keys (functional dependence)
-	bad    int
-	seen   map[string]bool
+	bad                   int
+	seen                  map[string]bool
 }
 
 func (w *walker) frame() []openrgb.Color {
@@ -263,7 +266,9 @@ func ledNames(l []openrgb.LED) []string {
 	return r
 }
 
-func channelColorIsOneOf(c openrgb.Color, chans []int, frame func(int) openrgb.Color) bool { return false }
+func channelColorIsOneOf(c openrgb.Color, chans []int, frame func(int) openrgb.Color) bool {
+	return false
+}
 
 // check compares one frame with the reference colouring.
 func (w *walker) check(chanColor map[int]openrgb.Color) {
@@ -398,6 +403,8 @@ func min(a, b int) int {
 	}
 	return b
 }
+
+var learnedUpAtLast, learnedDownAtFirst string
 
 func runLayout(res *vutil.Result, name string, leds []string, tier string) {
 	srv := &server{name: "Fake Keyboard"}
@@ -661,6 +668,28 @@ func runLayout(res *vutil.Result, name string, leds []string, tier string) {
 		distinct(w.semF, "semitone", -1, 0, 1)
 		distinct(w.mapF, "mapping", 0, 1, 2)
 		distinct(w.chF, "channel", chans...)
+		// "nothing further in this direction": the mapping_up key at the LAST mapping and the mapping_down key at the FIRST one.
+		// A configuration with a single mapping is at both ends at once: each key must look as it looks at its own end.
+		colourOf := func(s, action string) string {
+			for _, f := range strings.Fields(s) {
+				if strings.HasPrefix(f, action+"=") {
+					return strings.TrimPrefix(f, action+"=")
+				}
+			}
+			return ""
+		}
+		switch len(mappings) {
+		case 3:
+			learnedUpAtLast, learnedDownAtFirst = colourOf(w.mapF[2], "mapping_up"), colourOf(w.mapF[0], "mapping_down")
+		case 1:
+			up, down := colourOf(w.mapF[0], "mapping_up"), colourOf(w.mapF[0], "mapping_down")
+			if learnedUpAtLast != "" && up != "" && up != learnedUpAtLast {
+				w.violate("mapping-indicator-single-mapping", "mapping_up", fmt.Sprintf("with a single mapping the mapping_up key shows %s; at the last of several mappings it shows %s", up, learnedUpAtLast))
+			}
+			if learnedDownAtFirst != "" && down != "" && down != learnedDownAtFirst {
+				w.violate("mapping-indicator-single-mapping", "mapping_down", fmt.Sprintf("with a single mapping the mapping_down key shows %s; at the first of several mappings it shows %s", down, learnedDownAtFirst))
+			}
+		}
 		// disconnect with a key held: the last frame must be all red
 		w.press("KEY_A")
 		vsched.CloseBidi(in)
@@ -727,7 +756,16 @@ func main() {
 		if i%*nshards != *shard {
 			continue
 		}
-		runLayout(res, n, ls[n], *tier)
+		if n == "single-mapping" {
+			// the same device with ONE mapping (first and last at once), after a run with three that shows how each end looks
+			runLayout(res, "single-mapping (reference run with three mappings)", ls[n], "quick")
+			saved := mappings
+			mappings = mappings[:1]
+			runLayout(res, n, ls[n], "quick")
+			mappings = saved
+		} else {
+			runLayout(res, n, ls[n], *tier)
+		}
 		res.Sample(map[string]interface{}{"layout": n, "leds": ls[n]})
 	}
 	os.RemoveAll(root)
